@@ -182,7 +182,16 @@ var c15Ranges = core.Mon(c15, "ranges-and-reparse", func(w *core.W, c *ParseCase
 				p += sz
 			}
 			w.Count("identifier_texts_checked")
-			if string(c.Src[p:id.End()]) != id.Value {
+			// (trailing trivia inside the range would still satisfy the statement)
+			q := id.End()
+			for q > p {
+				r, sz := utf8.DecodeLastRune(c.Src[p:q])
+				if !(ref.IsSpace(r) || ref.IsLineBreak(r) || ref.IsSpaceOpen(r)) {
+					break
+				}
+				q -= sz
+			}
+			if string(c.Src[p:q]) != id.Value {
 				w.Violation("ranges-and-reparse", "C15/identifier-range", c, id.Value, fmt.Sprintf("[%d,%d) = %q", id.Pos(), id.End(), clipS(string(c.Src[id.Pos():id.End()]), 60)),
 					"the range of a name does not cover its text in "+c.Quoted())
 				return
